@@ -358,6 +358,32 @@ package app
 //@   requires ff != nil && ffInv(ff)
 //@   modifies *
 
+// C08 (conditional requests): the file handler answers 304 only when the request carries an If-Modified-Since date
+// that parses and is not before the file's modification time truncated to whole seconds; the comparison is made
+// against exactly that truncated time, receiver the parsed date.
+//@ ghost var imParsed bool
+//@ ghost var imBefore bool
+//@ ghost var imT0 int
+//@ ghost var imT1 int
+//@ ghost var imD0 int
+//@ ghost var imD1 int
+//@ func RequestContext.IfModifiedSince(ctx, lastModified) r
+//@   props C08
+//@   abstract
+//@   noinline
+//@   modifies imParsed, imBefore, imT0, imT1, imD0, imD1
+//@   ghostset-at-entry imParsed = false
+//@   ghostset-at-entry imBefore = true
+//@   ghostset after ParseHTTPDate: imParsed = (result1 == nil)
+//@   ghostset after ParseHTTPDate: imD0 = result0.wall
+//@   ghostset after ParseHTTPDate: imD1 = result0.ext
+//@   assert before Truncate: arg1 == 1000000000 && arg0.wall == lastModified.wall && arg0.ext == lastModified.ext
+//@   ghostset after Truncate: imT0 = result.wall
+//@   ghostset after Truncate: imT1 = result.ext
+//@   assert before Before: imParsed && arg0.wall == imD0 && arg0.ext == imD1 && arg1.wall == imT0 && arg1.ext == imT1
+//@   ghostset after Before: imBefore = result
+//@   top-ensures !r ==> imParsed && !imBefore
+
 // C14: the stream handed out to handlers - and to the release step of the server loop - is the request's own
 // body stream object, not a wrapper (the release step only drains a stream it recognises).
 //@ func RequestContext.RequestBodyStream(ctx) r
